@@ -558,6 +558,15 @@ class XR:
     def __abs__(self):
         return x_abs(self)
 
+    def __mod__(self, o):
+        """Python/NumPy float modulo for a concrete positive finite divisor: a - b*floor(a/b)."""
+        if is_sym(o) or not isinstance(o, (int, float, _np.integer, _np.floating)) or not (float(o) > 0 and math.isfinite(float(o))):
+            raise Unsupported("modulo with a symbolic or non-positive divisor")
+        if self.concrete_flags() and not (self.nan or self.pinf or self.ninf):
+            b = _rv(o)
+            return XR(self.v - b * z3.ToReal(z3.ToInt(self.v / b)), py=self.py)
+        raise Unsupported("modulo of a possibly non-finite value")
+
     # comparisons
     def __lt__(self, o):
         return mk_bool(x_lt(self, as_xr(o)))
